@@ -140,6 +140,23 @@ def match_known(known, prop, key, feat, detail=None):
     return None
 
 
+DOCUMENTED = [("AssertionError", "not enough growing degree days"), ("AssertionError", "crop will take longer than 1 year"),
+              ("ValueError", "sim_start_time format must be"), ("ValueError", "sim_end_time format must be"),
+              ("ValueError", "The first date of the climate data cannot be longer"),
+              ("ValueError", "The model end date cannot be longer than the last date of climate data"),
+              ("ValueError", "Simulation period must be less than 580 years")]
+
+
+def documented_rejection(err):
+    """the rejections C16 permits (raised at construction, initialisation or at the start of a season)"""
+    if not err:
+        return False
+    for t, m in DOCUMENTED:
+        if err.get("type") == t and m in (err.get("msg") or ""):
+            return True
+    return False
+
+
 class Verdicts:
     """Collects violations of ONE property, separates known findings, writes replay files."""
 
